@@ -408,8 +408,38 @@ def r4_child_writes_nothing_of_parent(ctx):
                 break
     ctx.require(rd is not None, "effective-table reader not found")
     ctx.touch(rd)
-    cfg = cfg_of(ctx, rd)
+    merged_view(ctx, rd)
+
+
+def merged_view(ctx, rd):
+    """Interpret the reader of the effective definitions on a function with two mixins and own definitions whose
+    signatures overlap pairwise: own definitions win, then the later mixin, then the earlier one."""
+    from ..metainterp import HostInterp, Raised, Record
+
     rv = recv_name(rd)
+    m1 = Record(defns={"s1": "mixin1:s1", "s2": "mixin1:s2", "s5": "mixin1:s5"}, _defns={})
+    m2 = Record(defns={"s2": "mixin2:s2", "s3": "mixin2:s3", "s5": "mixin2:s5"}, _defns={})
+    me = Record(mixins=[m1, m2], _defns={"s3": "own:s3", "s4": "own:s4", "s5": "own:s5"}, children=[], linkback=False)
+    want = {"s1": "mixin1:s1", "s2": "mixin2:s2", "s3": "own:s3", "s4": "own:s4", "s5": "own:s5"}
+    interpreted = True
+    try:
+        got = HostInterp({}, me, {}, globals_env={}, classes={}, functions={}).call_function(rd.node, [me], {}, {})
+    except (AnalysisError, Raised) as e:
+        interpreted = False
+        ctx.note(f"{rd.key} not interpretable ({e}); statement order checked instead")
+    if interpreted:
+        ok = isinstance(got, dict) and dict(got) == want
+        bad = next(((k, got.get(k), want[k]) for k in want if not isinstance(got, dict) or got.get(k) != want[k]), None) if not ok else None
+        untouched = m1.defns == {"s1": "mixin1:s1", "s2": "mixin1:s2", "s5": "mixin1:s5"} and me._defns == {"s3": "own:s3", "s4": "own:s4", "s5": "own:s5"}
+        ctx.ob(
+            f"{rd.key}:own-last",
+            rd.loc(),
+            "the effective table is: own definitions over the later mixin's over the earlier mixin's (interpreted on overlapping tables)",
+            ok and untouched,
+            (f"signature {bad[0]} resolves to {bad[1]!r} where {bad[2]!r} is due: a definition of lower precedence replaces one of higher precedence (an own override is shadowed by an inherited method, or an earlier mixin wins over a later one)" if bad else "the reader modifies the tables it reads"),
+        )
+        return
+    cfg = cfg_of(ctx, rd)
     own = [
         st
         for st in all_stmts(rd.node)
